@@ -165,12 +165,12 @@ def sval(v, bits):
 class Tape:
     """lazily materialised input string. Entries: ('c', class now, version, class as supplied) one cell; ('R', class) one or more unread-again cells of
     that class ahead of every cursor (look-ahead region, run-length abstracted); ('G',) cells behind the cursors that left the abstract state"""
-    def __init__(self, name, alphabet):
-        self.name = name; self.alphabet = alphabet
+    def __init__(self, name, alphabet, maxlen=None):
+        self.name = name; self.alphabet = alphabet; self.maxlen = maxlen     # maxlen: strings longer than this are outside the analysed input class
         self.cells = []
 
     def clone(self):
-        t = Tape(self.name, self.alphabet); t.cells = list(self.cells)
+        t = Tape(self.name, self.alphabet, self.maxlen); t.cells = list(self.cells)
         return t
 
     def ended(self):
@@ -308,9 +308,9 @@ def liveness(f, addr_only=False, defined=None):
 
 
 class Explorer:
-    def __init__(self, P, max_states=60000, sat=None, max_seconds=30):
+    def __init__(self, P, max_states=60000, sat=None, max_seconds=30, exact=False):
         import time
-        self.P = P; self.max_states = max_states; self.sat = sat
+        self.P = P; self.max_states = max_states; self.sat = sat; self.exact = exact      # exact: bounded inputs, no abstraction of tape cells
         self.deadline = time.time() + max_seconds
         self._live = {}
         self.nstates = 0; self.nforks = 0; self.nreturns = 0
@@ -369,7 +369,8 @@ class Explorer:
                 tt = s.tapes[tape]; tt.cells.append(('c', c, 0, c))
                 if s.mon is not None: s.mon.feed(tape, len(tt.cells) - 1, c)
             return f
-        raise Fork([('%s[%d] in %s' % (tape, n, cname(c)), mk(c)) for c in t.alphabet])
+        alpha = t.alphabet if (t.maxlen is None or n < t.maxlen) else [Z]
+        raise Fork([('%s[%d] in %s' % (tape, n, cname(c)), mk(c)) for c in alpha])
 
     def bvals(self, st, v):
         """all values (unsigned integers of the value's current width) a byte-derived value takes over the members of its class"""
@@ -653,6 +654,14 @@ class Explorer:
                 pass
             elif t[0] == 'direct' and t[1] in ('__assert_fail', 'abort'):
                 return ('abort',)
+            elif t[0] == 'direct' and (t[1].startswith('llvm.memcpy') or t[1] in ('memcpy', 'memmove') or t[1].startswith('llvm.memmove')):
+                d_, s_, n_ = V(0), V(1), V(2)
+                if n_[0] != 'c' or d_[0] != 'p' or s_[0] != 'p': raise Imprecise('memcpy with a non-constant length / pointer at %s' % i.loc)
+                if n_[1] > 4096: raise Imprecise('memcpy of %d bytes at %s' % (n_[1], i.loc))
+                one = type('I', (), {'d': {'size': 1}, 'loc': i.loc})()
+                vals = [self.load(st, ('p', s_[1], s_[2] + k), one) for k in range(n_[1])]
+                for k, v_ in enumerate(vals): self.store(st, ('p', d_[1], d_[2] + k), v_, one)
+                if i.d.get('bits') or (i.d.get('ty') or '').endswith('*'): fr.regs[i.id] = d_
             elif st.mon is not None and st.mon.call(self, st, fr, i, t, [self.val(st, fr, a) for a in i.ops[:8] if a['k'] in ('i', 'a', 'c', 'null', 'g')]):
                 pass
             else:
@@ -744,6 +753,8 @@ class Explorer:
                     if 0 <= q < n: window.add(q)
             # relations are kept only between cells that stay in the state for another reason
             keepcell = window | {p for p in other[t] if 0 <= p < n} | {p for p in bytes_[t] if 0 <= p < n}
+            if self.exact:
+                ranks[t] = {i: i for i in range(n + 1)}; cells[t] = tuple(tp.cells); continue
             M = min(deref[t]) if deref[t] else len(tp.cells)        # cells behind every cursor are forgotten; cells ahead of the hindmost cursor are run-length abstracted
             new = []; mp = {}
             for i, e in enumerate(tp.cells):
@@ -1073,3 +1084,39 @@ class LazyMonitor:
     def key(self, st, scan):
         scan(('p', 'T', self.next_pos))
         return lambda cv: (self.fed, self.expect_call, self.len, self.ncopied, self.term, self.called, cv(('p', 'T', self.next_pos)))
+
+
+class WriterMonitor:
+    """reference behaviour of the phrase writer: the bytes of the source string before its terminator are copied, in order, to consecutive bytes of the
+    output starting where the cursor pointed; nothing else is written to the output"""
+    outputs = ('out',)
+
+    def __init__(self):
+        self.fed = 0; self.len = None; self.ncopied = 0; self.next_pos = 0; self.bad = None; self.readonly = {'T'}
+
+    def clone(self):
+        m = WriterMonitor(); m.__dict__.update(self.__dict__)
+        return m
+
+    def feed(self, tape, pos, cls):
+        if self.len is not None: return
+        if cls == Z: self.len = self.fed
+        else: self.fed += 1
+
+    def wrote(self, *a): pass
+
+    def stored(self, obj, pos, v, inst):
+        if obj != 'out': return
+        if v[0] == 'b' and not bchain(v) and v[1] == ('T', self.next_pos, 0) and pos == self.ncopied:
+            self.ncopied += 1; self.next_pos += 1
+        elif not self.bad:
+            self.bad = 'out[%d] receives %s: not byte k of the source to byte k of the output' % (pos, v[0])
+
+    def call(self, *a): return False
+    def remap(self, tape, f): self.next_pos = f(self.next_pos)
+    def advance(self, ex, st):
+        if self.bad: raise Found('writer-output', '?', self.bad)
+    def needs(self, st): return None if self.len is not None else 'T'
+    def key(self, st, scan):
+        scan(('p', 'T', self.next_pos))
+        return lambda cv: (self.fed, self.len, self.ncopied, cv(('p', 'T', self.next_pos)))
